@@ -40,7 +40,10 @@ func VerifServerStreamCounts() []int {
 	verifMu.Unlock()
 	out := make([]int, len(hs))
 	for i, h := range hs {
-		h.mu.Lock()
+		if !h.mu.TryLock() {
+			out[i] = -1 // registry lock held: never block the harness
+			continue
+		}
 		out[i] = len(h.streams)
 		h.mu.Unlock()
 	}
